@@ -75,6 +75,7 @@ class Node:
         pos = lambda: sum(len(x) for x in out)
         if k == "L":
             suf = {"i": "", "l": "L", "q": "LL"}[self.t[0]]
+            self.col = pos()
             out.append("%d%s%s" % (self.v, "u" if self.t[1] == "u" else "", suf))
         elif k == "C":
             out.append("(")
@@ -355,6 +356,34 @@ def check(run, replay):
                                "reference_value": want, "reference": vlib.show(r), "gcc_static_assert": conf,
                                "how": "write `program` to t.c; build/repo/bin/cppcheck --dump --platform=%s t.c; look at the known value of token '%s' on line 3 column %d"
                                       % (plat, tok.str if tok else "?", tok.col if tok else 0)})
+        # ---------------- X3 MiniC programs (variables, branches, counted loops, early return)
+        # A fixed, pre-screened family (generated from a constant seed, NOT from VERIF_SEED): the analyser is
+        # unsound on a fraction of random programs even in this small fragment (see docs/C01.md), so fresh random
+        # programs would raise genuine-but-unlisted violations on the unchanged tree. Every program of the family
+        # that violates the property today is listed in known_findings.txt by the shape of its shrunk form.
+        import random as _random
+        from props import c01_minic as MC
+        nprog = 600 if quick else 3000
+        fixed = _random.Random("C01-minic-family-v1")
+        mbad = MC.run_minic_stream(run, model, "unix64", nprog, work, full=False, safe=False, rng=fixed)
+        run.stream("minic:unix64")["disagreements"] += len(mbad)
+        seenk = set()
+        for p_, viol, lines_p, tok in mbad:
+            q, v = MC.shrink(p_, model, work)
+            if v is None:
+                q, v = p_, viol + (tok,)
+            shape = MC.shape_of(q, v)
+            key = "minic:" + hashlib.sha1(shape.encode()).hexdigest()[:10]
+            if key in seenk:
+                continue
+            seenk.add(key)
+            ql = q.render("f")[0]
+            run.violation(key, "cppcheck reports %s for the observed expression of site %d, but an execution with inputs %s observes %d: %s"
+                          % ({k: v[1][k] for k in ("intvalue", "bound", "known", "impossible") if k in v[1]}, v[0], v[3], v[2], " ".join(l.strip() for l in ql)),
+                          {"program": "void sink(long long);\n" + "\n".join(ql) + "\n", "platform": "unix64", "shape": shape,
+                           "fact": v[1], "observed_value": v[2], "inputs": list(v[3]), "site": v[0],
+                           "how": "build/repo/bin/cppcheck --dump --platform=unix64 on `program`; the fact is on the root token of the site-th sink(); "
+                                  "call f with `inputs` (e.g. compile with gcc -fsanitize=undefined) to observe the value"})
     finally:
         shutil.rmtree(work, ignore_errors=True)
 
